@@ -1,5 +1,6 @@
 """Seeded, structured, state-aware generator of multi-client operation sequences
 (DESIGN.md 4.3).  Every random choice comes from one random.Random(seed)."""
+import zlib
 import random
 from .canon import esc, esc_list
 
@@ -314,7 +315,8 @@ class Gen:
         n1 = r.choice(free)
         n2 = r.choice([x for x in free if x != n1] or ["zz8"])
         pws = [p for p in (self.server_pw, self.cfg_users.get("reg")) if p] + ["wrong"]
-        if r.random() < 0.25:
+        fk = self.force[1] if getattr(self, "force", None) and self.force[0] == "reg" else None
+        if (fk == "twin") or (fk is None and r.random() < 0.25):
             # twins: a refused connection that looks exactly like the owner (same nick asked for, same user name, same host)
             # still is not the owner - its end removes nobody
             host = r.choice(HOSTS)
@@ -339,7 +341,9 @@ class Gen:
             L(d, "WHOIS " + n1); L(d, "LUSERS"); L(d, "PRIVMSG %s :still here" % n1)
             return
         k = r.choice(["overtaken", "overtaken", "taken_then_user", "pass_twice", "user_twice", "cap_mid"])
-        if self.max_conns and r.random() < 0.5:
+        if fk and fk != "slots":
+            k = fk
+        if self.max_conns and ((fk == "slots") or (fk is None and r.random() < 0.5)):
             # connection slots: fill up to the limit, be refused, free a slot, connect again - a refusal uses up nothing
             self.conns[c]["live"] = True
             opened = [c]
@@ -375,7 +379,13 @@ class Gen:
             L(c, "NICK " + n1)
             d = self.new_conn()
             if d is not None:
-                self.register(d, n1)
+                if r.random() < 0.75:
+                    # an overtaker that surely registers (the random registration below often fails on purpose)
+                    if self.server_pw: L(d, "PASS " + self.server_pw)
+                    L(d, "NICK " + n1); L(d, "USER ov 0 * :Over")
+                    self.conns[d]["nick"] = n1; self.conns[d]["done"] = True
+                else:
+                    self.register(d, n1)
             L(c, "USER %s 0 * :R" % u1)
             if r.random() < 0.2:
                 L(c, "PASS " + r.choice(pws))
@@ -409,6 +419,8 @@ class Gen:
         r = self.r
         L = self.line
         k = r.choice(["topic", "chan", "key", "nick", "kick", "away", "real"])
+        if getattr(self, "force", None) and self.force[0] == "long":
+            k = self.force[1]
         ch = r.choice(["#s1", "#s2"])
         if k == "topic":
             t = long_text(r)
@@ -450,6 +462,8 @@ class Gen:
         k = r.choice(["whowas_many", "ison_many", "bans_many", "joins_many", "invites_many", "members_many", "names_long"])
         if self.profile == "member" and r.random() < 0.4:
             k = r.choice(["names_long", "members_many", "joins_many"])
+        if getattr(self, "force", None) and self.force[0] == "bulk":
+            k = self.force[1]
         live = {x.get("nick") for x in self.conns.values() if x["live"] and x.get("nick")}
         if k == "whowas_many":
             # one nickname released again and again (session ends and renames away from it), then WHOWAS
@@ -531,14 +545,24 @@ class Gen:
 
     def scene(self):
         r = self.r
-        if r.random() < (0.55 if self.profile == "reg" else 0.06):
+        f = getattr(self, "force", None)
+        if f and f[0] == "reg":
             return self.reg_scene()
-        if r.random() < 0.08:
+        if f and f[0] == "bulk":
+            return self.bulk_scene()
+        if f and f[0] == "long":
+            regs = [c for c, x in self.conns.items() if x["live"] and x["done"] and x.get("nick")]
+            if len(regs) >= 2:
+                return self.long_scene(regs[0], regs[1], self.conns[regs[0]]["nick"], self.conns[regs[1]]["nick"])
+            return
+        if not f and r.random() < (0.55 if self.profile == "reg" else 0.06):
+            return self.reg_scene()
+        if not f and r.random() < 0.08:
             return self.bulk_scene()
         regs = [c for c, x in self.conns.items() if x["live"] and x["done"] and x.get("nick")]
         if len(regs) < 2:
             return
-        if r.random() < 0.08:
+        if not f and r.random() < 0.08:
             return self.long_scene(regs[0], regs[1], self.conns[regs[0]]["nick"], self.conns[regs[1]]["nick"])
         r.shuffle(regs)
         a, b = regs[0], regs[1]
@@ -552,6 +576,8 @@ class Gen:
         bias = SCENE_BIAS.get(self.profile)
         if bias and r.random() < 0.5:
             k = r.choice(bias)
+        if getattr(self, "force", None) and self.force[0] == "scene":
+            k = self.force[1]
         L = self.line
         if k == "kick_repeat":
             # a target named more than once in one KICK, adjacent or not, with kickable / refused ones in between
@@ -1048,3 +1074,68 @@ def write_ops_file(path, profile, seed, nseq, length):
             for o in ops:
                 f.write(o + "\n")
             f.write("end\n")
+
+
+# ---------------------------------------------------------------------------- every scene, every run
+SCENE_KINDS = ["invite_key", "invite_recreate", "invite_ban", "ranks_ladder", "halfop_mode", "quota_invisible", "voice_rename",
+               "wallops_rename", "flood_targets", "limit_invite", "case_twins", "kick_ranks", "secret_whois", "oper_cycle",
+               "moderated_prefix", "ban_case", "rejoin_list", "topic_lock", "rename_masks", "kick_repeat", "pre_rename",
+               "invite_ranks", "late_cap", "pre_bans", "list_masks", "multi_prefix"]
+REG_KINDS = ["twin", "slots", "overtaken", "taken_then_user", "pass_twice", "user_twice", "cap_mid"]
+LONG_KINDS = ["topic", "chan", "key", "nick", "kick", "away", "real"]
+BULK_KINDS = ["whowas_many", "ison_many", "bans_many", "joins_many", "invites_many", "members_many", "names_long"]
+
+
+def write_scene_file(path, seed, reps=4):
+    """One short sequence per scene kind and repetition: the scenes that random choice draws only now and then are ALL run in every
+    correspondence, so that what a scene was written to expose is exposed in every run, not only when the dice fall right.
+    Each sequence: a configuration that satisfies the scene's precondition, three or four registered connections, the scene
+    (twice, with fresh parameters), a few probes."""
+    fams = [("scene", SCENE_KINDS, "general"), ("reg", REG_KINDS, "reg"), ("long", LONG_KINDS, "general"), ("bulk", BULK_KINDS, "member")]
+    with open(path, "w") as f:
+        for fam, kinds, prof in fams:
+            for k in kinds:
+                for rep in range(reps * (3 if k == "overtaken" else 2 if fam == "reg" else 1)):
+                    for attempt in range(60):
+                        g = Gen(seed * 100003 + (zlib.crc32((fam + "/" + k).encode()) % 9973) * 41 + rep * 7 + attempt * 1009, prof)
+                        g.ops, g.conns, g.chan_members, g.chan_founder, g.cur_chan = [], {}, {}, {}, None
+                        cfg = g.gen_cfg()
+                        if k in ("pre_rename", "pre_bans") and not g.pre_chans:
+                            continue
+                        if k == "pre_bans" and rep % 2 == 0 and not g.pre_masks:
+                            continue
+                        if k == "slots" and not g.max_conns:
+                            continue
+                        if k in ("overtaken", "pass_twice", "cap_mid") and rep % 4 != 3 and not (g.server_pw and g.cfg_users.get("reg")):
+                            continue
+                        if k == "overtaken" and rep % 2 == 0 and not any(l.startswith("cfg user reg reg +regpw -") for l in cfg):
+                            continue
+                        if k == "quota_invisible" and rep % 2 == 0 and not g.max_joins:
+                            continue
+                        if k in ("oper_cycle", "wallops_rename") and not g.opers:
+                            continue
+                        if g.max_conns and g.max_conns < 4 and k != "slots":
+                            continue
+                        break
+                    g.force = (fam, k)
+                    r = g.r
+                    nicks = NICKS[:]
+                    r.shuffle(nicks)
+                    for c in range(1, 5):
+                        g.conns[c] = {"live": True, "nick": None, "done": False}
+                        g.ops.append("connect %d %s" % (c, r.choice(HOSTS)))
+                    for c in range(1, 4 if fam != "reg" else 3):
+                        g.register(c, nicks[c])
+                    n0 = len(g.ops)
+                    for _ in range(2):
+                        g.scene()
+                    live = [c for c, x in g.conns.items() if x["live"] and x["done"]]
+                    if live:
+                        g.line(live[0], "LUSERS"); g.line(live[0], "NAMES")
+                    f.write("seq scene-%s-%s-%d-%d\n" % (fam, k, seed, rep))
+                    for l in cfg:
+                        f.write(l + "\n")
+                    f.write("begin\n")
+                    for o in g.ops[:400]:
+                        f.write(o + "\n")
+                    f.write("end\n")
